@@ -1,0 +1,10 @@
+//go:build verif
+
+// Contracts for gzv (contract-based deductive verification, /verif). Comment-only file.
+package encoding
+
+// C08 no header map makes the parser panic: a key with an empty value list is handed on as that (empty) list, only a
+// one-element list is unwrapped (safety contract: the index obligations of the body are the point)
+//@ func ParseHeaders
+//@   property C08
+//@   loop 0: invariant m != nil
